@@ -28,6 +28,9 @@ PDU_KIND = {
 _seq = itertools.count()
 
 
+from harness.poolinit import no_join_at_exit  # noqa: E402
+
+
 def quiet():
     logging.getLogger("pynetdicom").setLevel(logging.CRITICAL + 1)
     logging.getLogger("pynetdicom").propagate = False
@@ -262,7 +265,13 @@ def run_scenario(sc, rng, raising=None, extra_handlers=None, kind="function"):
     res = {"script": sc}
     try:
         cl_ae = AE(ae_title="REQUESTOR")
-        cl_ae.add_requested_context(Verification)
+        if sc.get("nocx"):
+            # the acceptor will accept the association but none of the proposed contexts: the requestor aborts
+            from pynetdicom.sop_class import CTImageStorage
+
+            cl_ae.add_requested_context(CTImageStorage)
+        else:
+            cl_ae.add_requested_context(Verification)
         cl_ae.acse_timeout = cl_ae.dimse_timeout = cl_ae.network_timeout = t_o
         assoc = cl_ae.associate(
             "127.0.0.1", port, ae_title="WRONG" if sc["reject"] else "ACCEPTOR", evt_handlers=rec_req.handlers()
@@ -278,7 +287,7 @@ def run_scenario(sc, rng, raising=None, extra_handlers=None, kind="function"):
             elif sc["acc"] == "abort":
                 a.abort()
 
-        if not assoc.is_established and not sc["reject"] and not assoc.is_rejected:
+        if not assoc.is_established and not sc["reject"] and not assoc.is_rejected and not sc.get("nocx"):
             # the scenario is about an established association: with tiny timeouts on a loaded machine the negotiation
             # itself can time out.  Not a verdict on the property - run_many re-runs it alone with longer timeouts.
             res["inconclusive"] = "association not established (not rejected either)"
@@ -414,7 +423,7 @@ def run_many(scenarios, seed, workers=8, raising_specs=None):
         for i, sc in enumerate(scenarios)
     ]
     ctx = mp.get_context("fork")
-    pool = ctx.Pool(processes=workers, maxtasksperchild=40)
+    pool = ctx.Pool(processes=workers, maxtasksperchild=40, initializer=no_join_at_exit)
     try:
         results = pool.map(_worker, jobs, chunksize=1)
     finally:
@@ -425,7 +434,7 @@ def run_many(scenarios, seed, workers=8, raising_specs=None):
     # must not go unnoticed).
     again = [i for i, r in enumerate(results) if r.get("inconclusive")]
     if again:
-        pool = ctx.Pool(processes=1, maxtasksperchild=1)
+        pool = ctx.Pool(processes=1, maxtasksperchild=1, initializer=no_join_at_exit)
         try:
             for i in again[:40]:
                 sc, sd, spec = jobs[i]
